@@ -57,6 +57,13 @@ Literals ==
   /\ \A j \in 1..NX : PrintT(ToJson([fam |-> "shape", toks |-> <<"BEGIN", "{">> \o XMenu[j].toks \o <<"}">>,
                                      sx |-> "(program (begin (expr " \o XMenu[j].sx \o ")))",
                                      rt |-> "(program (begin (expr " \o XMenu[j].sx \o ")))"]))
+  \* a parenthesised print list of two arguments, for every pair of menu entries of which one is only safe in a print
+  \* argument when the list (or the argument) keeps its parentheses (ptoks # toks: a bare > or | getline inside)
+  /\ \A j \in 1..NX : \A k \in 1..NX :
+        (XMenu[j].ptoks # XMenu[j].toks \/ XMenu[k].ptoks # XMenu[k].toks) =>
+          LET sx == "(program (begin (print " \o XMenu[j].sx \o " " \o XMenu[k].sx \o ")))"
+          IN PrintT(ToJson([fam |-> "shape", toks |-> <<"BEGIN", "{", "print", "(">> \o XMenu[j].toks \o <<",">> \o XMenu[k].toks \o <<")", "}">>,
+                            sx |-> sx, rt |-> sx]))
 
 Next == (\E p \in SProds \cup BProds : ExpandS(p)) \/ Literals
 Spec == Init /\ [][Next]_vars
